@@ -3,6 +3,7 @@ import hashlib
 import os
 import sys
 import shutil
+import stat as _stat
 
 from . import _buf
 from ..core import lib, seams
@@ -55,12 +56,38 @@ def dir_state(w):
     return tuple(out)
 
 
+def extra_files(w):
+    """Every file in the run directory that is not a resource file (left-over temp files), name -> bytes."""
+    mine = {os.path.basename(r.ident) for r in w.res}
+    out = []
+    try:
+        names = sorted(os.listdir(w.dir))
+    except OSError:
+        names = []
+    for n in names:
+        p = os.path.join(w.dir, n)
+        if n in mine:
+            continue
+        try:
+            if not _stat.S_ISREG(os.lstat(p).st_mode):     # (os.lstat is not a seam: no recursion into the crash-state hooks)
+                continue
+        except OSError:
+            continue
+        try:
+            with seams.REAL["open"](p, "rb") as f:
+                out.append((n, f.read()))
+        except OSError:
+            pass
+    return tuple(out)
+
+
 def instrumented(w, fn, rg, kill_at=None):
     """Run fn() with crash-state enumeration. Returns (result, states: dict state -> first label, n_events, info)."""
     libdir = w.ns.libdir + "/"
     states = {}
     counter = [0]
-    info = {"torn": 0, "between": 0, "events": []}
+    info = {"torn": 0, "between": 0, "events": [], "full": {}}
+    full = info["full"]      # (resource files, left-over temp files) -> (event, label): the WHOLE directory at a crash
     seen_tmp_write = [False]
 
     def snap(label):
@@ -70,6 +97,9 @@ def instrumented(w, fn, rg, kill_at=None):
         st = dir_state(w)
         if st not in states:
             states[st] = (counter[0], label)
+        ex = extra_files(w)
+        if ex and (st, ex) not in full:
+            full[(st, ex)] = (counter[0], label)
         if seen_tmp_write[0] and label == "pre-replace":
             info["between"] += 1
 
@@ -84,12 +114,23 @@ def instrumented(w, fn, rg, kill_at=None):
         for r in w.res:
             if os.path.abspath(path) == os.path.abspath(r.ident):
                 rid = r.rid
+        if isinstance(data, str):
+            # a file opened in text mode: the crash states are prefixes of the ENCODED bytes
+            enc = getattr(fobj, "encoding", None) or "utf-8"
+            try:
+                data = data.encode(enc)
+            except UnicodeError:
+                data = data.encode(enc, "replace")    # (the real write raises; nothing of this text reaches the disk intact)
         n = len(data)
         if n <= 256:
             ks = range(n + 1)
         else:
             ks = sorted(set([0, 1, n // 4, n // 2, 3 * n // 4, n - 1, n] + [rg.randrange(n) for _ in range(16)]))
         base = dir_state(w)
+        base_extra = extra_files(w) if rid is None else ()
+        if rid is None and fobj is not None:
+            # bytes already handed to this temp file but still in Python's buffer are not on disk: base_extra is what is
+            base_extra = tuple((nm, b) for nm, b in base_extra)
         for k in ks:
             counter[0] += 1
             if kill_at is not None and counter[0] == kill_at:
@@ -102,6 +143,12 @@ def instrumented(w, fn, rg, kill_at=None):
                 st = tuple((cur + data[:k]) if i == rid else b for i, b in enumerate(base))
                 if st not in states:
                     states[st] = (counter[0], f"write-prefix[{k}/{n}]")
+            else:
+                # a torn write of a TEMP file: the directory holds the resource files plus a partial temp file
+                name = os.path.basename(path)
+                ex = tuple(sorted([(nm, b) for nm, b in base_extra if nm != name] + [(name, dict(base_extra).get(name, b"") + data[:k])]))
+                if (base, ex) not in full:
+                    full[(base, ex)] = (counter[0], f"temp-write-prefix[{k}/{n}]")
 
     def gtrace(frame, event, arg):
         if event == "call" and frame.f_code.co_filename.startswith(libdir):
@@ -351,6 +398,42 @@ def scenario(cfg, seed, i, kill_at=None, want_states=False):
                     if not same(shown, got):
                         out["viol"] = {"kind": "crash_state_unreadable", "msg": f"{label}: fresh object shows {shown!r} for crash state {got!r}"}
                         return out
+        # ---- whole-directory crash states (with left-over / partial temp files): a fresh collection opens them normally ----
+        full = info.get("full", {})
+        items = sorted(full.items(), key=lambda kv: kv[1][0])
+        if len(items) > 10:
+            stepn = len(items) / 10.0
+            items = [items[int(j * stepn)] for j in range(10)] + [items[-1]]
+        out["full_states"] = len(full)
+        for n_, ((st, ex), (ev, lab)) in enumerate(items):
+            scratch = os.path.join(w.dir, "crashdir-%d" % n_)
+            os.makedirs(scratch, exist_ok=True)
+            try:
+                for rid, b in enumerate(st):
+                    if b is not None:
+                        with seams.REAL["open"](os.path.join(scratch, os.path.basename(w.res[rid].ident)), "wb") as f:
+                            f.write(b)
+                for nm, b in ex:
+                    with seams.REAL["open"](os.path.join(scratch, nm), "wb") as f:
+                        f.write(b)
+                for rid, b in enumerate(st):
+                    got = parse(b)
+                    if isinstance(got, tuple) and got and got[0] == "<unparsable>":
+                        continue     # reported by the torn-state oracle above
+                    cls = w.cls_of(cfg["family"], cfg["kinds"][rid])
+                    try:
+                        shown = cls(filename=os.path.join(scratch, os.path.basename(w.res[rid].ident)))()
+                    except Exception as e:  # noqa
+                        out["viol"] = {"kind": "crash_state_unreadable", "msg": f"{label}: a fresh {cls.__name__} cannot open file {rid} in the directory left by a crash at "
+                                       f"event {ev} ({lab}; left-over files {[(nm, len(b)) for nm, b in ex]!r}): {e!r}"}
+                        return out
+                    exp = got if got is not ABSENT else ({} if cfg["kinds"][rid] == "dict" else [])
+                    if not same(shown, exp):
+                        out["viol"] = {"kind": "crash_state_unreadable", "msg": f"{label}: in the directory left by a crash at event {ev} ({lab}; left-over files "
+                                       f"{[(nm, len(b)) for nm, b in ex]!r}) a fresh {cls.__name__} shows {shown!r} for file {rid}, which holds {jsonable(exp)!r}"}
+                        return out
+            finally:
+                shutil.rmtree(scratch, ignore_errors=True)
         return out
     finally:
         w.close()
